@@ -571,10 +571,18 @@ class Range(Terminal):
         super().__init__(tag)
         self.start = start
         self.stop = stop
-        self._re = re.compile(rf"[{re.escape(self.start)}-{re.escape(self.stop)}]")
+        self._re = re.compile(self._pattern())
 
     def __str__(self) -> str:
         return f"{self.tag_str()}'{self.start!r}'..'{self.stop!r}'"
+
+    def _pattern(self) -> str:
+        """The regex pattern for this range, shared by `parse` and `generate`."""
+        if self.start > self.stop:
+            # As in pest, a range whose start is greater than its end is valid
+            # and matches nothing (a reversed character class does not compile).
+            return r"(?!)"
+        return rf"[{re.escape(self.start)}-{re.escape(self.stop)}]"
 
     def parse(self, state: ParserState, pairs: list[Pair]) -> bool:  # noqa: D102
         if match := self._re.match(state.input, state.pos):
@@ -587,7 +595,7 @@ class Range(Terminal):
         """Emit Python code for a character range."""
         gen.writeln("# <Range>")
 
-        pattern = rf"[{re.escape(self.start)}-{re.escape(self.stop)}]"
+        pattern = self._pattern()
         # Character ranges are case sensitive, as in `__init__`.
         re_var = gen.constant("RE", f"re.compile({pattern!r})")
 
